@@ -221,7 +221,18 @@ func PropC17Race(c *vs.Case, f Factory, kind string) error {
 				_ = env.Ctl.Sync(env.Ctl.KeyFor(p))
 			}
 		}
-		return storeDigest(env.W.Sim), overlap, nil
+		digest := storeDigest(env.W.Sim)
+		if env.W.RelatedRefs != nil {
+			// what the controller subscribed to on behalf of its customize rules is part of the result
+			refs := env.W.RelatedRefs()
+			var ks []string
+			for k, n := range refs {
+				ks = append(ks, fmt.Sprintf("%s=%d", k, n))
+			}
+			sort.Strings(ks)
+			digest += "\nrelated informer subscriptions: " + strings.Join(ks, " ")
+		}
+		return digest, overlap, nil
 	}
 	seq, _, err := run(false)
 	if err != nil {
